@@ -54,6 +54,7 @@ type Engine struct {
 	implCache map[*types.Func][]*ssa.Function
 	edgeCache map[*ssa.Function][]*ssa.Function
 	callers   map[*ssa.Function][]callerSite
+	fieldWriters map[*types.Var]map[*ssa.Function]int
 	astFuncs  map[*ssa.Function]*ast.FuncDecl
 }
 
